@@ -196,9 +196,7 @@ func (d *Disk) ForceUnlock() {
 func (d *Disk) fault(kind CallKind) FaultKind {
 	idx := d.Calls
 	d.Calls++
-	if d.CallLogOn {
-		d.CallLog = append(d.CallLog, kind)
-	}
+	d.CallLog = append(d.CallLog, kind)
 	p := d.plan
 	if p == nil || idx < p.Index || idx >= p.Index+p.Burst {
 		return FaultNone
